@@ -18,7 +18,7 @@ RULE = ('adjacent pairs (c, c+1) of centi-marks for every table/event/gender/age
         'differently (straddles a change of points); distinct by (system, table, mark)')
 ASSUMPTIONS = ['Hungarian: range restricted to marks no slower than the zero-point of the parabola (timed) / from the zero '
                'of the parabola up to the 1400-point mark (field), as the property states']
-RULE = RULE + '; Tyrving hand-timed texts also in the minute forms m:ss.t, m.ss.t, m:ss,t'
+RULE = RULE + '; Tyrving hand-timed texts also in the minute forms m:ss.t, m.ss.t, m:ss,t and from one hour up h:mm:ss.t / h.mm.ss.t / h:mm:ss.xx'
 
 
 def fmt2(c):
@@ -37,6 +37,15 @@ def _mss2(c):
 def _mss1(c):
     m, r = divmod(c, 6000)
     return '%d:%02d.%d' % (m, r // 100, (r % 100) // 10) if m else fmt1(c)
+
+
+def _hms(c, dec):
+    """h:mm:ss.xx / h:mm:ss.t from one hour up (the long walks), the minute form below."""
+    h, r = divmod(c, 360000)
+    if not h:
+        return _mss2(c) if dec == 2 else _mss1(c)
+    m, r = divmod(r, 6000)
+    return ('%d:%02d:%02d.%02d' % (h, m, r // 100, r % 100)) if dec == 2 else ('%d:%02d:%02d.%d' % (h, m, r // 100, (r % 100) // 10))
 
 
 def _dot2(c):
@@ -71,7 +80,8 @@ def context(case):
         params = junior.tyrving_tables()[g][e]
         timed = params[0] == 'race'
         conv = {'float': centi_float, 'text2': fmt2, 'text1': fmt1, 'mss2': _mss2, 'mss1': _mss1, 'dot2': _dot2, 'dot1': _dot1,
-                'comma1': lambda c: fmt1(c).replace('.', ',')}[form]
+                'comma1': lambda c: fmt1(c).replace('.', ','), 'hms2': lambda c: _hms(c, 2), 'hms1': lambda c: _hms(c, 1),
+                'hdot1': lambda c: _hms(c, 1).replace(':', '.')}[form]
         sp = case.get('spelling', e)        # the event as the caller spells it (normalises to the key e)
         return (lambda c: call(athlib.tyrving_score, g, age, sp, conv(c))), timed, 0, None
     if s == 'qkids':
@@ -159,6 +169,8 @@ def examine_hand(case):
         hand = [('s.t', fmt1(c)), ('s,t', fmt1(c).replace('.', ','))]
         if c >= 6000:
             hand += [('m:ss.t', _mss1(c)), ('m.ss.t', _dot1(c)), ('m:ss,t', _mss1(c).replace('.', ','))]
+        if c >= 360000:
+            hand += [('h:mm:ss.t', _hms(c, 1)), ('h.mm.ss.t', _hms(c, 1).replace(':', '.'))]
         for name, text in hand:
             a = call(athlib.tyrving_score, g, age, e, text)
             if a[0] != 'ret' or b[0] != 'ret' or a[1] > b[1]:
@@ -321,6 +333,14 @@ def shard(ctx, payload):
                         st = max(a10, 5900) + rng.randrange(max(1, b10 - max(a10, 5900) - w + 1))
                         ctx.violations(examine(dict(base, form=form, lo=st, hi=st + w), ctx))
                     ctx.label('tyrving-minute-forms')
+                if b10 > 360000:
+                    # from one hour up (the long walks): h:mm:ss spellings, across the hour marks
+                    h0 = max(a10, 354000)
+                    for form in ('hms1', 'hdot1'):
+                        ctx.violations(examine(dict(base, form=form, step=10, lo=h0, hi=b10), ctx))
+                    for k in range(1, b10 // 360000 + 1):
+                        ctx.violations(examine(dict(base, form='hms2', lo=max(a10, k * 360000 - 300), hi=min(b10, k * 360000 + 300)), ctx))
+                    ctx.label('tyrving-hour-forms')
                 hc = {'kind': 'hand', 'gender': g, 'event': ev, 'age': age, 'lo': a10, 'hi': b10}
                 ctx.count((b10 - a10) // 10 + 1)
                 ctx.violations(examine_hand(hc))
